@@ -245,8 +245,9 @@ inductive Decl where
   | arr (rows : List (List Lit))
   /-- an expression: an `MX` even when it is constant -/
   | expr (e : E)
-  /-- a 1-D array literal whose elements are scalar expressions: a Python list of `MX` -/
-  | arrE (es : List E)
+  /-- an array literal with scalar expressions as elements (rows as in `arr`): a nested Python list
+      of `MX`, which `variable_metadata_function` turns into a matrix (`_nested_list_to_mx`) -/
+  | arrE (rows : List (List E))
   /-- `zeros(..)`, `ones(..)`, `fill(x, ..)` with the variable's dimensions: a `DM` -/
   | dm (x : Rat)
 deriving Repr, Inhabited
@@ -259,7 +260,7 @@ inductive Stored where
   /-- Python list; elements in column-major order as `ca.DM(list)` lays them out -/
   | list (xs : List Py)
   | mx (e : E)
-  /-- Python list of scalar `MX` -/
+  /-- (nested) Python list of scalar `MX`; elements in column-major order -/
   | listE (es : List E)
   | dm (n : Nat) (x : Rat)
 deriving Repr, Inhabited
@@ -285,7 +286,7 @@ def Var.decl (v : Var) : AttrName → Option Decl
   | .start => v.start | .fixed => v.fixed | .nominal => v.nominal
 
 /-- column-major flattening of the rows of an array literal (`ca.DM(nested list)` then `vec`) -/
-def colMajor (rows : List (List Lit)) : List Lit :=
+def colMajor {α : Type} (rows : List (List α)) : List α :=
   let ncol := (rows.head?.map List.length).getD 0
   (List.range ncol).flatMap fun j => rows.filterMap fun r => r[j]?
 
@@ -309,7 +310,7 @@ def store (v : Var) (a : AttrName) : Stored :=
       if v.dims.isEmpty then .py ((pyCast v.ptype (.float (.fin q))).getD (.float (.fin q)))
       else .dm 1 q
     | .mx => .mx e
-  | some (.arrE es) => .listE es
+  | some (.arrE rows) => .listE (colMajor rows)
   | some (.dm x) =>
     if v.dims.isEmpty then .py ((pyCast v.ptype (.float (.fin x))).getD (.float (.fin x)))
     else .dm v.numel x
